@@ -437,7 +437,8 @@ class StmtMixin(object):
                 for lbl, text in spec.inv.items():
                     self.oblige(st, 'invariant-preserved', 'loop%d:%s' % (k, lbl), self.spec_bool(text, st, extra2), text)
                 self.check_loop_frame(st, head_heap, havocked, k)
-                self.covers.append(('loop%d-body-reachable' % k, list(st.pc)))
+                if not spec.unreachable:
+                    self.covers.append(('loop%d-body-reachable' % k, list(st.pc)))
                 raise PathEnd()
             if out[0] == 'break':
                 self.check_loop_frame(st, head_heap, havocked, k)
@@ -495,7 +496,8 @@ class StmtMixin(object):
                     d1 = self.spec_eval(spec.decreases, st).t
                     self.oblige(st, 'variant-decreases', 'loop%d' % k, z3.And(d0 >= 0, d1 < d0), spec.decreases)
                 self.check_loop_frame(st, head_heap, havocked, k)
-                self.covers.append(('loop%d-body-reachable' % k, list(st.pc)))
+                if not spec.unreachable:
+                    self.covers.append(('loop%d-body-reachable' % k, list(st.pc)))
                 raise PathEnd()
             if out[0] == 'break':
                 return NORMAL
